@@ -341,9 +341,19 @@ theorem apply_chk (p : Pid) (gt' : Int) (o : Outcome) (hq : o.quiet = true → o
         simp [dueUpd, clearDue, hp, hle, List.foldl, chk, this]
       · simp [dueUpd, clearDue, hp, hle]
 
-/-- **One pass of the loop preserves the agreement between log and fronts.** -/
+/-- a front that holds a pending update after the poll contributed exactly its distance to `full_step`
+(no hypothesis on the clock: also in the zero-length forced pass) -/
+theorem poll_pending_contrib (beh : Beh) (gt endT : Int) (force : Bool) (v : Store) (p : Pid) (f : Front)
+    (hidle : f.time ≤ gt → f.pending = none) (u : Upd)
+    (h : (poll beh gt endT force v p f).front.pending = some u) :
+    (poll beh gt endT force v p f).contrib = some ((poll beh gt endT force v p f).front.time - gt) := by
+  unfold poll pollWith at h ⊢
+  cases hs : f.sticky <;> simp only [hs] at h ⊢ <;> grind
+
+/-- **One pass of the loop preserves the agreement between log and fronts** (any pass, the zero-length
+forced one included). -/
 theorem iter_sync (c : Cfg) (hb : PosBeh c.beh) (endT : Int) (force : Bool) (s : St)
-    (hle : s.gt < endT) (hinv : Inv s) (hnd : NodupPids s) (hsync : Sync s) :
+    (hinv : Inv s) (hnd : NodupPids s) (hsync : Sync s) :
     Sync (iter c endT force s) := by
   have hidle : ∀ pf ∈ s.fronts, pf.2.time ≤ s.gt → pf.2.pending = none := by
     intro pf hpf hle'
@@ -398,19 +408,13 @@ theorem iter_sync (c : Cfg) (hb : PosBeh c.beh) (endT : Int) (force : Bool) (s :
       simp only [List.foldl_nil]
       apply apply_chk p (s.gt + d) _ (hquiet p f hmem)
       intro u hu
-      -- a pending front is due no earlier than the new global time
-      have hc := poll_cases c.beh hb s.gt endT force s.store p f hle (hinv _ hmem)
-      simp only at hc
+      -- a pending front is due no earlier than the new global time: it contributed its distance to the minimum
       unfold pollOf at hu ⊢
       simp only at hu ⊢
-      rcases hc with ⟨hq, _⟩ | ⟨hq, c', hcc, hcase⟩
-      · have := poll_quiet_pending c.beh s.gt endT force s.store p f (hidle (p, f) hmem) hq
-        rw [this] at hu; cases hu
-      · have hdc := hmin (p, poll c.beh s.gt endT force s.store p f)
-          (by simp only [List.mem_map]; exact ⟨(p, f), hmem, rfl⟩) c' hcc
-        rcases hcase with ⟨u', hu', hs, ht, _⟩ | ⟨n, hn, _⟩
-        · rw [ht]; omega
-        · rw [hn] at hu; cases hu
+      have hcc := poll_pending_contrib c.beh s.gt endT force s.store p f (hidle (p, f) hmem) u hu
+      have hdc := hmin (p, poll c.beh s.gt endT force s.store p f)
+        (by simp only [List.mem_map]; exact ⟨(p, f), hmem, rfl⟩) _ hcc
+      omega
     · intro pf' hpf'
       simp only [List.map_map, List.mem_map, Function.comp_def] at hpf'
       obtain ⟨⟨p, f⟩, hmem, rfl⟩ := hpf'
